@@ -10,6 +10,7 @@
 #[path = "../c05/scen.rs"]
 #[allow(dead_code)]
 mod scen;
+mod leftover;
 
 use scen::*;
 use vh::*;
@@ -332,6 +333,59 @@ fn run_wake(id: String, mut case: Case, fix21: bool, em: &mut Emitter) {
     }
 }
 
+// ---------------------------------------------------------------- leftover + EOF cases
+
+fn run_leftover(id: String, l: leftover::Leftover, fix21: bool, em: &mut Emitter) {
+    let case = leftover::as_case(&l);
+    prewarm(&case);
+    let input = serde_json::json!({ "leftover": l });
+    match catch(|| leftover::run(&l)) {
+        Err(p) => {
+            em.panics += 1;
+            em.emit(CaseOut {
+                id,
+                input,
+                impl_show: format!("PANIC {p}"),
+                oracle_ok: false,
+                oracle_why: format!("implementation panicked: {p}"),
+                tags: vec!["kind:leftover-eof".into(), "panic".into()],
+                ..Default::default()
+            });
+        }
+        Ok(out) => {
+            let why = leftover::oracle(&l, &out);
+            let last = out.run.snaps.last().cloned().unwrap_or_default();
+            let m = leftover::modelled(&l);
+            let polls: usize = out.run.snaps.iter().map(|s| s.polls).sum();
+            em.emit(CaseOut {
+                id,
+                input,
+                coq_case: if m { Some(format!("(CWake {})", coq_case(&case, fix21))) } else { None },
+                expect: if m { Some(expect_wake(&out.run, false).coq()) } else { None },
+                impl_show: format!(
+                    "rounds={} polls={} taken={} started={} responded={} accepted={} produced={} res={} fin={} advances={} timer_wakes={} reader={} writer={} handler={}",
+                    out.run.snaps.len(), polls, last.taken, last.started, last.responded, last.accepted, last.produced, last.res,
+                    out.fin_delivered, out.advances, out.timer_wakes, out.reader_reg, out.writer_reg, out.handler_reg
+                ),
+                oracle_ok: why.is_empty(),
+                oracle_why: why,
+                known_class: String::new(),
+                nontrivial: l.fin_separate || !l.tail_with_requests || l.first_waits,
+                sig: format!("leftover:{:?}:{}:{}:{}:{}:{}:{}", l.tail, l.n.min(3), l.tail_with_requests, l.fin_separate, l.no_fin, l.ka_secs, l.first_waits),
+                tags: vec![
+                    "kind:leftover-eof".into(),
+                    format!("res:{}", last.res),
+                    format!("modelled:{m}"),
+                    format!("tail:{}", match l.tail { leftover::Tail::TruncHead(_) => "trunc-head", leftover::Tail::Crlf => "crlf", leftover::Tail::ChunkLine => "chunk-line" }),
+                    format!("fin:{}", if l.no_fin { "never" } else if l.fin_separate { "own-poll" } else { "with-tail" }),
+                    format!("ka:{}", if l.ka_secs == 0 { "os" } else { "timer" }),
+                    format!("pending-handler:{}", l.first_waits),
+                ],
+            });
+        }
+    }
+}
+
 // ---------------------------------------------------------------- generator
 
 fn wr(rng: &mut Rng) -> Vec<W> {
@@ -604,6 +658,8 @@ fn main() {
     for (id, v) in args.fixed_inputs() {
         if let Some(f) = v.get("flush") {
             run_flush(id, serde_json::from_value(f.clone()).expect("flush case"), &mut em);
+        } else if let Some(l) = v.get("leftover") {
+            run_leftover(id, serde_json::from_value(l.clone()).expect("leftover case"), fix21, &mut em);
         } else {
             run_wake(id, serde_json::from_value(v).expect("case json"), fix21, &mut em);
         }
@@ -615,6 +671,8 @@ fn main() {
             let mut r = rng.fork();
             if i % 4 == 3 {
                 run_flush(format!("gen-{i}"), gen_flush(&mut r), &mut em);
+            } else if i % 8 == 5 {
+                run_leftover(format!("gen-{i}"), leftover::generate(&mut r), fix21, &mut em);
             } else {
                 run_wake(format!("gen-{i}"), gen_wake(&mut r), fix21, &mut em);
             }
